@@ -317,41 +317,52 @@ def run(ctx):
                       "every other disagreement with the path oracle is a violation"]
     reg = registered_findings()
     corpus = [dict(c, src="corpus") for c in C.load_corpus(PID)]
-    cases = corpus + list(gen_cases(ctx))
-    specs = lean_eval(cases, "spec")
-    models = lean_eval(cases, "model")
-    walks = lean_eval(cases, "walk")
-    gots = C.pmap(impl, cases, chunksize=64)
     allvio, nknown, first_known = [], {}, {}
     walk_super = small_sub = 0
-    for case, got, spec, model, walk in zip(cases, gots, specs, models, walks):
-        ev.evaluations += len(case["Q"])
-        ev.count("src:" + case["src"])
-        ev.count("queries", len(case["Q"]))
-        for s, m, w in zip(spec, model, walk):
-            ss, ms, ws = as_sets(s), as_sets(m), as_sets(w)
-            # theorems re-checked on every case: pathDef <= pdsW (C17.pdsDef_subset_pdsW), pds <= pathDef
-            if not all(a <= b for a, b in zip(ss, ws)):
-                out.proof_breaks.append("intended search pdsW does not contain the path oracle on " + lean_line(case, "walk"))
-            if not all(a <= b for a, b in zip(ms, ss)):
-                out.proof_breaks.append("literal model pds is not inside the path oracle on " + lean_line(case, "model"))
-            walk_super += (w != s)
-            small_sub += (m != s)
-        deep = depth3(case, spec)
-        ev.count("queries:pds-nonempty", sum(1 for s in spec if s.split("#")[0]))
-        if deep:
-            ev.nontrivial.add(C.hashlib.sha1(C.json.dumps([case["g"], case.get("ts")], sort_keys=True).encode()).hexdigest()[:16])
-        if len(ev.samples) < 6 and case["src"][:3] in ("rnd", "cha", "ts"):
-            ev.samples.append({"g": case["g"], "ts": case.get("ts"), "Q": case["Q"][:5], "src": case["src"]})
-        vio, known = judge_case(case, got, spec, model, walk, reg)
-        allvio += vio
-        for k in known:
-            nknown[k[5]] = nknown.get(k[5], 0) + 1
-            if k[5] not in first_known or (case["src"] == "corpus" and first_known[k[5]][1] != "corpus"):
-                first_known[k[5]] = (k, case["src"])
+    ngraphs = 0
+    first_case = None
+    import itertools
+    for cases in U.chunks(itertools.chain(corpus, gen_cases(ctx)), 20000):
+        ngraphs += len(cases)
+        first_case = first_case or cases[0]
+        specs = lean_eval(cases, "spec")
+        models = lean_eval(cases, "model")
+        walks = lean_eval(cases, "walk")
+        gots = C.pmap(impl, cases, chunksize=64)
+        for case, got, spec, model, walk in zip(cases, gots, specs, models, walks):
+            ev.evaluations += len(case["Q"])
+            ev.count("src:" + case["src"])
+            ev.count("queries", len(case["Q"]))
+            for s, m, w in zip(spec, model, walk):
+                if s == m == w:
+                    continue
+                ss, ms, ws = as_sets(s), as_sets(m), as_sets(w)
+                # theorems re-checked on every case: pathDef <= pdsW (C17.pdsDef_subset_pdsW), pds <= pathDef
+                if not all(a <= b for a, b in zip(ss, ws)):
+                    out.proof_breaks.append("intended search pdsW does not contain the path oracle on " + lean_line(case, "walk"))
+                if not all(a <= b for a, b in zip(ms, ss)):
+                    out.proof_breaks.append("literal model pds is not inside the path oracle on " + lean_line(case, "model"))
+                walk_super += (w != s)
+                small_sub += (m != s)
+            deep = depth3(case, spec)
+            ev.count("queries:pds-nonempty", sum(1 for s in spec if s.split("#")[0]))
+            if deep:
+                ev.nontrivial.add(C.hashlib.sha1(C.json.dumps([case["g"], case.get("ts")], sort_keys=True).encode()).hexdigest()[:16])
+            if len(ev.samples) < 6 and case["src"][:3] in ("rnd", "cha", "ts"):
+                ev.samples.append({"g": case["g"], "ts": case.get("ts"), "Q": case["Q"][:5], "src": case["src"]})
+            vio, known = judge_case(case, got, spec, model, walk, reg)
+            if len(allvio) < 200:
+                allvio += vio
+            for k in known:
+                nknown[k[5]] = nknown.get(k[5], 0) + 1
+                if k[5] not in first_known or (case["src"] == "corpus" and first_known[k[5]][1] != "corpus"):
+                    first_known[k[5]] = (k, case["src"])
+        if allvio:
+            break
+    cases = [first_case] if first_case else []
     if not ev.samples and cases:
         ev.samples.append({"g": cases[0]["g"], "Q": cases[0]["Q"][:5]})
-    ev.extra["graphs"] = len(cases)
+    ev.extra["graphs"] = ngraphs
     ev.extra["known_finding_queries"] = nknown
     ev.extra["queries_where_intended_walk_search_exceeds_path_definition"] = walk_super
     ev.extra["queries_where_literal_model_is_below_path_definition"] = small_sub
@@ -368,7 +379,7 @@ def run(ctx):
         g2, s2, m2, w2 = evals(small)
         out.violation(small, {"impl": g2, "spec": s2, "model": m2, "walk_model": w2,
                               "first_seen": {"case": c0, "impl": a, "spec": s, "model": m, "walk_model": w},
-                              "lean_request": lean_line(small, "spec"), "disagreeing_queries": len(allvio)})
+                              "lean_request": lean_line(small, "spec"), "disagreeing_queries_at_least": len(allvio)})
 
 
 def depth3(case, spec):
